@@ -264,7 +264,16 @@ func runC07(ctx *runCtx) {
 				c07Conn(i, byte(0x41+i), newRng(cc.Seed, fmt.Sprint("conn", i)), cc.Rounds, leak)
 			}(i)
 		}
-		wg.Wait()
+		// bounded wait: with a broken library one connection can swallow another one's bytes and leave it
+		// waiting for ever; the ownership log below then says why
+		waitc := make(chan struct{})
+		go func() { wg.Wait(); close(waitc) }()
+		hung := false
+		select {
+		case <-waitc:
+		case <-time.After(90 * time.Second):
+			hung = true
+		}
 		websocket.VerifSetEventHook(nil)
 		rep.eval(fmt.Sprintf("%+v", cc))
 		rep.count(fmt.Sprintf("conns:%d", cc.Conns))
@@ -290,6 +299,14 @@ func runC07(ctx *runCtx) {
 		}
 		if bi == 0 {
 			rep.sample(cc)
+		}
+		if hung {
+			plog.mu.Lock()
+			if plog.bad == "" {
+				rep.violate(Violation{Kind: "property", Shape: "case-hangs", What: "the connections of the batch did not finish within 90 s; library goroutines: " + libStacks(1200), Replay: cc})
+			}
+			plog.mu.Unlock()
+			break // goroutines of this batch are stuck: later batches would share the process-wide pools with them
 		}
 	}
 	// targeted scenarios (run one at a time: they depend on what the process-wide pools hold)
